@@ -80,7 +80,7 @@ Definition protect_online (cache : ccache) (data : bytes) (sid : pystr) (rkid : 
   | Raise e => (Raise e, cache)
   | Ok sd =>
     match protection_gke_from_cache c cache rkid sd time_ns with
-    | Raise e => (Raise e, cache)
+    | Raise e => (Raise e, protection_lookup_cache c cache rkid sd time_ns)
     | Ok (o, cache1) =>
       match envelope_for o server dom [VB sd; vbytes_opt rkid; VI (-1); VI (-1); VI (-1); u; p; a] with
       | Raise e => (Raise e, cache1)
